@@ -100,9 +100,25 @@ def _worker(spec):
             ],
             "caps": ["timeout:" + spec["id"]],
         }
-    except BaseException:  # noqa: BLE001 - harness failure, reported as such
+    except BaseException as exc:  # noqa: BLE001
         signal.setitimer(signal.ITIMER_REAL, 0)
-        res = {"harness_error": traceback.format_exc()}
+        tb = traceback.extract_tb(exc.__traceback__)
+        src = os.path.realpath(os.environ.get("SHAPEPY_SRC", "/repo/src"))
+        if tb and os.path.realpath(tb[-1].filename).startswith(src) and not isinstance(exc, (KeyboardInterrupt, SystemExit, MemoryError)):
+            # an exception raised INSIDE the library during a harness step that has no
+            # business failing (building an alphabet shape, reading a result, an auxiliary
+            # query): the tree is broken, reported as a violation of this case
+            res = {
+                "violations": [
+                    {
+                        "case_id": spec["id"] + " :: library exception during an auxiliary step",
+                        "what": exc_str(exc) + " at " + "%s:%d" % (os.path.basename(tb[-1].filename), tb[-1].lineno) + " | " + " <- ".join("%s:%d" % (os.path.basename(f.filename), f.lineno) for f in reversed(tb[-4:])),
+                        "replay": spec,
+                    }
+                ]
+            }
+        else:
+            res = {"harness_error": traceback.format_exc()}
     finally:
         signal.setitimer(signal.ITIMER_REAL, 0)
     res["id"] = spec["id"]
